@@ -55,7 +55,7 @@ func VerifH_Transact() {
 	fns := make([]GormProcFn, n)
 	for i := 0; i < n; i++ {
 		i := i
-		behave[i] = symx.Concrete(symx.Int("behave"), 0, 2) // 0 ok, 1 error, 2 panic
+		behave[i] = symx.Concrete(symx.Int("behave"), 0, 4) // 0 ok, 1 error, 2 panic(error), 3 runtime panic (nil map write), 4 panic(string)
 		errs[i] = symx.NewError("step failed")
 		fns[i] = func(t *gorm.DB) error {
 			log = append(log, verifEvStep0+i)
@@ -65,6 +65,11 @@ func VerifH_Transact() {
 				return errs[i]
 			case 2:
 				panic(errs[i])
+			case 3:
+				var m map[string]int
+				m["x"] = 1 // a runtime.Error
+			case 4:
+				panic("step blew up")
 			}
 			return nil
 		}
